@@ -172,7 +172,7 @@ def inspect_origin(
     name: str,
     processor_cls,
     processor_config: Dict[str, Any],
-    key_origin: Dict[str, int],
+    key_origin: Dict[str, Optional[int]],
     deleted_keys: set[str],
 ) -> Tuple[str, Optional[int], Optional[Any]]:
     """
